@@ -175,7 +175,8 @@ Fixpoint hist_run (p : packet) (ops : list sval) : option (list sval * packet) :
   end.
 Definition hist_obs (p : packet) (ops : list sval) : option sval :=
   let? (rs, pf) := hist_run p ops in
-  Some (SL [SL [SY "results"; SL rs]; SL [SY "consistent"; sbool true]; SL [SY "final"; s_packet pf]]).
+  Some (SL [SL [SY "results"; SL rs]; SL [SY "consistent"; sbool true]; SL [SY "final"; s_packet pf];
+            SL [SY "backing"; sbool true]]).
 
 Definition run_op (c : sval) : option sval :=
   match c with
